@@ -109,7 +109,7 @@ def str_harness(state, op):
         tr = Tr(ex, lambda: f.c_prelude())
         ex.path_tags = ["str", "mem=%d num=%d" % (mem, num), op]
         s = C06.Str(ex, tr, mem, num, term)
-        faulted(ex, f, s, lambda: getattr(s, "op_" + op)(), lambda w: s.check(w, term and s.cur()[2] > 0 and False), op)
+        faulted(ex, f, s, lambda: getattr(s, "op_" + op)(), lambda w: s.check(w, term), op)
         tr.call("a_str_dtor", s.s, ret="void")
         f.check_ledger(op + "+dtor")
     return h
@@ -142,7 +142,7 @@ def main():
     for hst in hs:
         for o in ["push_fore", "push_back", "insert", "push_sort", "pull_fore", "pull_back", "remove", "drop", "setz"]:
             inst.append(("que", hst, o))
-    for st in [(0, 0, False), (8, 7, True), (8, 8, False), (16, 15, True)]:
+    for st in [(0, 0, False), (8, 7, True), (8, 5, True), (8, 8, False), (16, 15, True)]:
         for o in ["catc", "catc_", "catn", "catn_", "cats", "cat", "catf", "setm", "utf_catc"]:
             inst.append(("str", st, o))
     res.functions.update(["a_alloc (replaceable pointer)", "a_alloc_", "a_vec_new/die/dtor/setm/setn/insert/push_*/push_sort/store", "a_buf_new/die/setm",
